@@ -51,6 +51,19 @@ CLAIMED["C04"] = (
     "Trusts TLC/Json, the recording seams and the driver's CBOR reader; bounds: 2 (quick) / 3 (thorough) overlapping blocks over <=3 UTxOs exhaustively, 1..4 blocks over <=130 UTxOs randomly.",
     "DESIGN.md section 5, C04")
 
+CLAIMED["C05"] = (
+    "TLC model check of the resolve loop with a CBOR-width size model (MC_ResolveLoop: FixedPoint holds without, fails with the ReturnAtCap deviation) + dense sweeps of store amounts around every width boundary x protocol parameters replayed on resolve_tx through a recording compiler + TLC trace validation (Trace_ResolveLoop)",
+    "TLC explores the loop on the width model and exhibits the non-convergence; the real resolve_tx is run on transfer-shaped templates with totals swept across the 24/2^8/2^16/2^32 boundaries for several pparams, and TLC validates every recorded Round/MinUtxo/Result: "
+    "round r is built with the fee reported by round r-1, the reported fee is a*len+b+margin, fee-dependent outputs are computed with the body fee, the result is the last round and a fixed point.",
+    "Trusts TLC/Json, the recording Compiler wrapper and the driver's CBOR reader; template family: transfer with/without fees in min_amount and with min_utxo; non-convergent cases are a recorded finding (deviation:ReturnAtCap).",
+    "DESIGN.md section 5, C05")
+CLAIMED["C20"] = (
+    "TLC model check of the two-instance product with compiler memory (MC_ResolveLoop: HistoryIndependent holds without, fails with the StaleMem deviation) + TLC-enumerated histories x targets (MC_History) replayed on one shared and one fresh tx3_cardano::Compiler + TLC trace validation (Trace_ResolveLoop)",
+    "TLC shows on the model that a remembered body makes the outcome history dependent and that forgetting it at the start of a resolution removes the dependence; every history of 0..2 (quick) / 0..3 (+ sampled 4) earlier resolutions followed by every target runs on a shared "
+    "instance and the target on a fresh one, and TLC validates that outcomes (payload digest, fee, error kind) agree and that no min_utxo evaluation reads a body of an earlier transaction.",
+    "Trusts TLC/Json and the recording Compiler wrapper (it forwards Compiler::reset); 7 history templates (0..5 outputs, with/without min_utxo, one failing), 5 targets, 2 stores.",
+    "DESIGN.md section 5, C20")
+
 ALL = ["C%02d" % i for i in range(1, 21)]
 
 NOT_YET = "check not built yet in this revision of /verif (planned: see DESIGN.md section 5); not claimed until its machinery exists and is quiet on the unchanged tree"
